@@ -173,11 +173,58 @@ func rulePlaceholderTaint(c *Ctx, r *Report) {
 		}
 		return types.Implements(t, termIface) || isTermSlice(t, termIface)
 	}
-	taint := func(v ssa.Value) {
+	// loads of struct fields, by (struct type, field index): host values parked in a field (the parser's argument
+	// queue since fix F46) are followed to every place that reads the field
+	fieldLoads := map[string][]*ssa.UnOp{}
+	fieldKey := func(fa *ssa.FieldAddr) string {
+		return fmt.Sprintf("%s#%d", deref(fa.X.Type()).String(), fa.Field)
+	}
+	for _, fn := range c.LibFuncs() {
+		eachInstr(fn, func(in ssa.Instruction) {
+			if ld, ok := in.(*ssa.UnOp); ok && ld.Op == token.MUL {
+				if fa, ok := ld.X.(*ssa.FieldAddr); ok {
+					fieldLoads[fieldKey(fa)] = append(fieldLoads[fieldKey(fa)], ld)
+				}
+			}
+		})
+	}
+	taintedField := map[string]bool{}
+	var taint func(v ssa.Value)
+	// only raw host values are followed through fields: reflect.Value, interface{} and slices of them (what a
+	// string taken out of them flows into - atom names, say - is followed as before, along values only)
+	var isRaw func(t types.Type) bool
+	isRaw = func(t types.Type) bool {
+		if isNamedIn(t, "reflect", "Value") {
+			return true
+		}
+		switch u := t.Underlying().(type) {
+		case *types.Interface:
+			return u.NumMethods() == 0
+		case *types.Slice:
+			return isRaw(u.Elem())
+		}
+		return false
+	}
+	taintField := func(fa *ssa.FieldAddr) {
+		k := fieldKey(fa)
+		if taintedField[k] || !isRaw(deref(fa.Type())) {
+			return
+		}
+		taintedField[k] = true
+		for _, ld := range fieldLoads[k] {
+			taint(ld)
+		}
+	}
+	taint = func(v ssa.Value) {
 		if v != nil && !tainted[v] && !isData(v.Type()) {
 			tainted[v] = true
 			from[v] = cur
 			work = append(work, v)
+			if ld, ok := v.(*ssa.UnOp); ok && ld.Op == token.MUL {
+				if fa, ok := ld.X.(*ssa.FieldAddr); ok {
+					taintField(fa) // an element was stored into the slice this field holds
+				}
+			}
 		}
 	}
 	trail := func(v ssa.Value) string {
@@ -287,6 +334,9 @@ func rulePlaceholderTaint(c *Ctx, r *Report) {
 					if ia, ok := x.Addr.(*ssa.IndexAddr); ok {
 						taint(ia.X)
 					}
+					if fa, ok := x.Addr.(*ssa.FieldAddr); ok {
+						taintField(fa)
+					}
 				}
 			case *ssa.Return:
 				// results of library functions returning tainted data
@@ -339,8 +389,25 @@ func rulePlaceholderTaint(c *Ctx, r *Report) {
 				}
 			}
 		}
+		// or it holds the host values themselves (reflect.Value, since fix F46) and the taint above follows them
+		// through the field into the substitution site, where R-SUBST-LAST lets them go to termOf only
+		viaField := false
+		if pt := c.engType("Parser"); pt != nil && !good {
+			st := pt.Underlying().(*types.Struct)
+			for i := 0; i < st.NumFields(); i++ {
+				if sl, ok := st.Field(i).Type().Underlying().(*types.Slice); ok && st.Field(i).Name() == "args" && isNamedIn(sl.Elem(), "reflect", "Value") {
+					for v := range tainted {
+						if in, ok := v.(ssa.Instruction); ok && in.Parent() == t0 {
+							viaField = true
+						}
+					}
+				}
+			}
+		}
 		if good {
 			r.ok(rule, fname(t0)+"/substitution", c.Pos(t0.Pos()), "placeholder arguments are spliced in as finished terms at the atom level of the grammar", "the argument queue is a []Term: host values are converted before the parser sees them", false)
+		} else if viaField {
+			r.ok(rule, fname(t0)+"/substitution", c.Pos(t0.Pos()), "placeholder arguments are spliced in as finished terms at the atom level of the grammar", "the argument queue holds the host values ([]reflect.Value); the taint follows them through the field into "+fname(t0)+", and none reaches a reader", false)
 		} else {
 			r.bad(rule, fname(t0)+"/substitution", c.Pos(t0.Pos()), "placeholder arguments are spliced in as finished terms at the atom level of the grammar", "the argument queue is not a []Term")
 		}
@@ -548,6 +615,9 @@ func ruleArgsConsumed(c *Ctx, r *Report) {
 				}
 				if !loaded {
 					return // filling the queue, not taking from it
+				}
+				if _, isConst := ia.Index.(*ssa.Const); !isConst {
+					return // walking the queue in a loop over its own length (validation, error message), not taking its head
 				}
 			}
 			key := fmt.Sprintf("%s/take-arg(%T)", fname(fn), in)
@@ -931,8 +1001,21 @@ var _ = strings.Join
 func ruleSubstLast(c *Ctx, r *Report) {
 	const rule = "R-SUBST-LAST"
 	n := 0
+	termOf := c.method("Parser", "termOf")
+	termT := c.engType("Term")
 	for _, fn := range c.LibFuncs() {
 		if recvNamed(fn) != "Parser" {
+			continue
+		}
+		// the substitution happens in a function that produces a term (SetPlaceholder only validates the
+		// arguments, errTooManyArgs only prints them)
+		producesTerm := false
+		for i := 0; i < fn.Signature.Results().Len(); i++ {
+			if termT != nil && types.Identical(fn.Signature.Results().At(i).Type(), termT) {
+				producesTerm = true
+			}
+		}
+		if !producesTerm {
 			continue
 		}
 		eachInstr(fn, func(in ssa.Instruction) {
@@ -980,6 +1063,16 @@ func ruleSubstLast(c *Ctx, r *Report) {
 						case *ssa.BinOp:
 							bad = "compared at " + c.at(x)
 						case ssa.CallInstruction:
+							// the one conversion of the host value into a term (since fix F46 it happens here, under the
+							// flag in force where the placeholder stands): its term is followed on, its error is an error
+							if call, ok := x.(*ssa.Call); ok && termOf != nil && call.Call.StaticCallee() == termOf && isNamedIn(v.Type(), "reflect", "Value") {
+								for _, r2 := range *call.Referrers() {
+									if ex, ok := r2.(*ssa.Extract); ok && ex.Index == 0 {
+										follow(ex)
+									}
+								}
+								continue
+							}
 							bad = "passed to " + calleeName(x.Common()) + " at " + c.at(x)
 						default:
 							bad = fmt.Sprintf("used by %T at %s", u, c.at(u))
@@ -1365,7 +1458,9 @@ func ruleScanOverwrites(c *Ctx, r *Report) {
 // long as the arguments are converted eagerly, the flag of an existing parser must not change: every store
 // to Parser.doubleQuotes is the initialisation of a parser being constructed. (If the flag is refreshed per
 // term - so that a set_prolog_flag directive takes effect in the rest of the text - the literal "hi" follows
-// the new flag while the placeholder "hi" keeps the old one.)
+// the new flag while the placeholder "hi" keeps the old one.)  Since fixes F45/F46 the loader does refresh the
+// flag per term and the arguments are converted lazily, where the placeholder stands: the rule accepts exactly
+// the two consistent combinations (eager + never refreshed, lazy + refreshed or not) and rejects eager + refreshed.
 
 func rulePlaceholderFlag(c *Ctx, r *Report) {
 	const rule = "R-PLACEHOLDER-FLAG"
@@ -1376,8 +1471,49 @@ func rulePlaceholderFlag(c *Ctx, r *Report) {
 		return
 	}
 	desc := "placeholders and literals are converted under the same double_quotes value"
-	// is the conversion eager? SetPlaceholder (transitively, statically) calls termOf, which reads the flag
-	eager := c.staticallyReaches(setPH, termOf)
+	// is the conversion eager? SetPlaceholder calls termOf, which reads the flag, and keeps the term (a call whose
+	// term is dropped only validates the argument); it is lazy when the function that compares a term with
+	// Parser.placeholder calls termOf itself.
+	eager := false
+	eachInstr(setPH, func(in ssa.Instruction) {
+		call, ok := in.(*ssa.Call)
+		if !ok || call.Call.StaticCallee() != termOf {
+			return
+		}
+		for _, ref := range *call.Referrers() {
+			if ex, ok := ref.(*ssa.Extract); ok && ex.Index == 0 && len(*ex.Referrers()) > 0 {
+				eager = true
+			}
+		}
+	})
+	lazy := false
+	for _, fn := range c.LibFuncs() {
+		if funcPkg(fn) != c.Engine || fn == setPH {
+			continue
+		}
+		readsPH, callsTermOf := false, false
+		eachInstr(fn, func(in ssa.Instruction) {
+			switch x := in.(type) {
+			case *ssa.FieldAddr:
+				if fieldName(x) == "placeholder" && isEngNamed(deref(x.X.Type()), "Parser") {
+					if refs := x.Referrers(); refs != nil {
+						for _, ref := range *refs {
+							if u, ok := ref.(*ssa.UnOp); ok && u.Op == token.MUL {
+								readsPH = true
+							}
+						}
+					}
+				}
+			case *ssa.Call:
+				if x.Call.StaticCallee() == termOf {
+					callsTermOf = true
+				}
+			}
+		})
+		if readsPH && callsTermOf {
+			lazy = true
+		}
+	}
 	readsFlag := false
 	eachInstr(termOf, func(in ssa.Instruction) {
 		if fa, ok := in.(*ssa.FieldAddr); ok && fieldName(fa) == "doubleQuotes" {
@@ -1409,8 +1545,10 @@ func rulePlaceholderFlag(c *Ctx, r *Report) {
 		r.ok(rule, key, "-", desc, fmt.Sprintf("%d stores to Parser.doubleQuotes, all initialising a parser under construction", n), true)
 	case eager && readsFlag:
 		r.bad(rule, key, c.at(late), desc, fname(lateFn)+" changes the flag of an existing parser while SetPlaceholder has already converted the arguments under the old value: after a double_quotes directive in the same text a literal and a placeholder with the same string denote different terms")
+	case lazy && !eager:
+		r.ok(rule, key, c.at(late), desc, "the flag of an existing parser is changed at "+c.at(late)+", and placeholder arguments are converted where the placeholder is substituted (SetPlaceholder keeps no converted term)", true)
 	default:
-		r.ok(rule, key, c.at(late), desc, "the flag of an existing parser is changed, but placeholder arguments are converted lazily (not from SetPlaceholder)", true)
+		r.undecided(rule, key, c.at(late), desc, "the flag of an existing parser is changed, and where placeholder arguments are converted could not be established")
 	}
 	r.analysed(rule, fmt.Sprintf("%d stores to Parser.doubleQuotes; eager conversion: %v", n, eager && readsFlag))
 }
